@@ -66,12 +66,12 @@ def c16_jobs(tier):
 
 
 def c14_jobs(tier):
-    return [sim("c14-push-faults", "c14", require_counters=["posts_observed", "delete_while_failing_checked", "rounds_against_closed_port", "answers.102", "answers.late90s-200", "answers.reset"]),
+    return [sim("c14-push-faults", "c14", require_counters=["posts_observed", "delete_while_failing_checked", "rounds_against_closed_port", "answers.102", "answers.late90s-200", "answers.reset", "pages_accepted_in_one_instant"]),
             sim("c14-lifecycle", "c14r", require_counters=["names_reused", "posts_observed", "rejected_creates", "pull_only_read_back"])]
 
 
 def c02_jobs(tier):
-    jobs = [sim("c02-seq", "c02", require_counters=["effective_acks", "stale_unknown_repeated_acks", "deadline_crossings_after_ack", "acks_sent_over_a_stream"]),
+    jobs = [sim("c02-seq", "c02", require_counters=["effective_acks", "stale_unknown_repeated_acks", "deadline_crossings_after_ack", "acks_sent_over_a_stream", "nacks_naming_one_id_twice"]),
             conc("c02-conc", "c03", params={"n": 1500 if tier == "quick" else 20000}, require_counters=["certainly_effective_acks"]),
             sim("c02-stream-mixed", "c05", require_nontrivial=False)]
     if tier == "thorough":
@@ -118,11 +118,14 @@ def c17_jobs(tier):
 def c13_jobs(tier):
     return [sim("c13-walks", "c13", require_counters=["walks_completed", "hostile_tokens_tried", "negative_size_rejected", "hostile_token_served", "hostile_token_rejected"]),
             # listings after racing creates / deletes of one name (the exact model of the delete / re-create walk)
-            sim("c13-after-races", "c11", require_nontrivial=False)]
+            sim("c13-after-races", "c11", require_nontrivial=False),
+            # the same walks on a 4-worker runtime (real clock): a page is assembled from the answers of
+            # many actors running on different threads, so "creation order" cannot come from reply order
+            sim("c13-walks-mt", "c13", engine_arg="mt", shards=8, require_counters=["walks_completed"], require_nontrivial=False)]
 
 
 def c15_jobs(tier):
-    return [sim("c15-grid", "c15", require_counters=["blocking_pull_timed_against_limit", "blocked_pull_woken_by_publish", "stream_limit_checked", "blocking_pull_after_drain_timed", "parked_consumers_served_by_big_publish"]),
+    return [sim("c15-grid", "c15", require_counters=["blocking_pull_timed_against_limit", "blocked_pull_woken_by_publish", "stream_limit_checked", "blocking_pull_after_drain_timed", "parked_consumers_served_by_big_publish", "heavy_message_published_to_parked_consumers"]),
             sim("c15-waiters", "c06", params={"n": 2000}, require_nontrivial=False),
             # pulls with limits 1 and 3 inside bursts, one burst in five arriving in the instant in which
             # up to six earlier leases run out: no pull returns more than it asked for
@@ -200,7 +203,7 @@ def c06_jobs(tier):
 
 def c10_jobs(tier):
     jobs = [sim("c10-wgl", "c10", require_counters=["overlapping_operation_pairs", "names_checked", "overlapping_double_delete_ok"]),
-            sim("c10-seq-status", "c11", require_nontrivial=False),
+            sim("c10-seq-status", "c11", require_counters=["duplicate_topic_creates_refused"], require_nontrivial=False),
             # check-then-act on the name maps needs real threads: stable build, 4-worker runtime, real clock
             sim("c10-wgl-mt", "c10", engine_arg="mt", shards=8, require_counters=["episodes_with_barrier_racers"], require_nontrivial=False)]
     if tier == "thorough":
@@ -263,7 +266,7 @@ PROPERTIES = {
             "level_note": SIM_NOTE, "assumptions": ["id reuse after 2^32 messages or topics is out of reach"]},
     "C13": {"level": "exploration", "jobs": c13_jobs, "engine": "dvsim",
             "technique": "runtime monitoring against a creation-ordered reference list: complete pagination walks over a boundary grid and hostile page tokens, sequential episodes",
-            "level_text": "For resource counts {0,1,2,19,20,21,999,1000,1001,1005}, all three List RPCs, three interleaved projects (one sharing a name prefix) and deletion/re-creation histories, every page size of the boundary grid is walked to the empty token and compared with the model list (each resource once, creation order, page <= effective size, nothing foreign); negative sizes must be INVALID_ARGUMENT; hostile tokens (issued tokens shifted and truncated, random base64 of 0-16 bytes, non-base64, offsets up to 2^64-1) must be INVALID_ARGUMENT or yield a contiguous in-order slice, never a panic or hang. The grid is enumerated completely; token strings are sampled.",
+            "level_text": "For resource counts {0,1,2,19,20,21,999,1000,1001,1005}, all three List RPCs, three interleaved projects (one sharing a name prefix) and deletion/re-creation histories, every page size of the boundary grid is walked to the empty token and compared with the model list (each resource once, creation order, page <= effective size, nothing foreign); negative sizes must be INVALID_ARGUMENT; hostile tokens (issued tokens shifted and truncated, random base64 of 0-16 bytes, non-base64, offsets up to 2^64-1) must be INVALID_ARGUMENT or yield a contiguous in-order slice, never a panic or hang. The grid is enumerated completely; token strings are sampled. The same walks run once more for counts {2,21,150,1001} on a 4-worker runtime with the real clock, where the answers of the resources' actors reach the listing handler from different threads.",
             "level_note": SIM_NOTE,
             "assumptions": ["no concurrent create/delete during a walk (the property's precondition)"]},
     "C15": {"level": "exploration", "jobs": c15_jobs, "engine": "dvsim",
@@ -293,7 +296,7 @@ PROPERTIES = {
             "assumptions": ["acks inside the expiry window [D, D+999 ms] assert nothing (ambiguous)"]},
     "C14": {"level": "fault_enumeration", "jobs": c14_jobs, "engine": "dvsim + scripted push endpoint",
             "technique": "fault injection with runtime monitoring: scripted HTTP endpoint enumerates per-attempt behaviour sequences; offline checker over the endpoint's request log",
-            "level_text": "The real push loop POSTs to a scripted raw-TCP HTTP endpoint inside the episode's runtime; every per-attempt behaviour sequence up to length 2 (quick) / 3 (thorough) over 17 behaviours (accepted and rejected statuses, interim 1xx, resets, late answers) is enumerated for 1 and 3 messages, plus closed-port and delete-while-failing episodes. The checker over the request log requires well-formed bodies naming the subscription, a re-POST after every failure within 2 intervals + margin, no POST after an accepted in-deadline answer for 5 virtual minutes, no POST for pull-only siblings and none after deletion. Life-cycle walks (create push to endpoint A or B / pull-only / rejected, delete subscription, delete and re-create topic, with name reuse and the push loop running) are compared with a reference model of name -> endpoint: every POST goes to the endpoint the named subscription had when the message was published, pull-only subscriptions keep their messages, and the push registry (hooked state) equals the model. Complete enumeration of the fault family to the bound; timing uses wide margins because virtual time is lumpy with real sockets.",
+            "level_text": "The real push loop POSTs to a scripted raw-TCP HTTP endpoint inside the episode's runtime; every per-attempt behaviour sequence up to length 2 (quick) / 3 (thorough) over 17 behaviours (accepted and rejected statuses, interim 1xx, resets, late answers) is enumerated for 1 and 3 messages, plus closed-port and delete-while-failing episodes and two episodes in which a page of 60 messages is accepted in one and the same instant. The checker over the request log requires well-formed bodies naming the subscription, a re-POST after every failure within 2 intervals + margin, no POST after an accepted in-deadline answer for 5 virtual minutes, no POST for pull-only siblings and none after deletion. Life-cycle walks (create push to endpoint A or B / pull-only / rejected, delete subscription, delete and re-create topic, with name reuse and the push loop running) are compared with a reference model of name -> endpoint: every POST goes to the endpoint the named subscription had when the message was published, pull-only subscriptions keep their messages, and the push registry (hooked state) equals the model. Complete enumeration of the fault family to the bound; timing uses wide margins because virtual time is lumpy with real sockets.",
             "level_note": SIM_NOTE + " Real loopback sockets with a paused clock: time is monotone but lumpy, timing verdicts carry >=30 s margins; observations inside a margin are inconclusive.",
             "assumptions": ["ack deadline 60 s, push interval 1 s, 'late' = 90 s", "a connection closed right after accept stands in for 'refused' inside scripted sequences; a really closed port is covered by the special episodes"]},
     "C16": {"level": "fault_enumeration", "jobs": c16_jobs, "engine": "dvsim",
